@@ -35,6 +35,12 @@ def run(repo: Repo, chk: Check):
     chk.guarded(r06a, repo, chk, "R02.d")
     chk.guarded(r06g, repo, chk, "R02.d")
     chk.guarded(r02e, repo, chk)
+    chk.rule("R02.f", "the ra logic finds a function's own exit points whatever the options splice into it: the end label is the LAST label ending in "
+                      "'<name>end:' (an inlined callee may end in the same text), and a return omits its jump to the end label only as the last statement of "
+                      "the body (shared with R06.f / R06.h)", floor=2)
+    from .c06 import r06k, r06h
+    chk.guarded(r06k, repo, chk, "R02.f")
+    chk.guarded(r06h, repo, chk, "R02.f")
 
 
 def _option_reads(repo, fields):
